@@ -9,6 +9,12 @@ CLAIMED = {
  "C02": ("reference-model monitor over hooked coin-tree snapshots before/after every batch of generated histories",
          "Every batch of thousands of generated histories (all transaction kinds, dependent members in every order, one hostile mutation) is checked against a map-based UTXO model: accepted => necessary validity conditions held and coin set = prior - inputs + outputs exactly; rejected => every observable component unchanged.",
          "Covers generated batches only; validity model checks necessary conditions (sufficiency is observed, not claimed); covenants outside the reference interpreter's domain give no claim.", "6/C02"),
+ "C10": ("differential monitor against an independent reference interpreter, final result through the public API and pc/stack/heap in lockstep through the hooked executor",
+         "All programs of length <= 4 over a 16-instruction alphabet x 3 heaps are enumerated; ~10^5 (quick) type-aware random programs with counted/nested loops, jumps in and out of loops, boundary operands and mixed types, random decodable lists and environment-reading programs over random transactions/headers are run on both interpreters; millions of intermediate machine states are compared per run.",
+         "Corners the specification does not pin down (shift >= 256, loop body past the end or empty, lengths > 2^22) are excluded and counted; ed25519 and blake3 are trusted.", "6/C10"),
+ "C11": ("resource monitors on adversarial program families: hooked step counter vs weight, hooked weigh-work counter, counting allocator, with explicit polynomial budgets",
+         "Nested/sibling/overrunning loops up to depth 22 (40 thorough), jump-heavy code, and byte/vector self-append doubling up to 70 rounds followed by each consuming opcode in every operand position are grown until the first budget excess: executed instructions <= weight exactly; weighing work <= 4n^2+64 visits; peak memory <= 1 MiB + 4 KiB*(weight+code+heap), cumulative <= 64x.",
+         "Budgets are explicit constants chosen with >= 100x slack over linear-time behaviour; wall-clock is recorded but never decides. Lengths >= 2^64 trap only under overflow checks inside the catvec dependency and are excluded (verified silent in a production-like build).", "6/C11"),
  "C12": ("exhaustive + randomized differential monitor of the codec against an independent reference decoder/encoder",
          "All 16.8M byte strings of length <= 3 are enumerated on every run, plus operand-class, truncation, trailing-byte, mutated and random-instruction-list cases; each is checked for decodability agreement, both round trips, and weight/hash equality bytes vs instructions vs reference.",
          "Exhaustive only up to 3 bytes; longer inputs are sampled. The reference decoder was written from the opcode table.", "6/C12"),
